@@ -404,7 +404,15 @@ class Compiler:
             return False, None
 
         for ctx_start, ctx_end, file_format, filepath, *arguments in self.emitted_files:
-            result = file_formats[file_format](base, code, *arguments)
+            try:
+                result = file_formats[file_format](base, code, *arguments)
+            except struct.error:
+                # The format stores the load address and the length in 16-bit fields
+                reports.error(
+                    "value-out-of-bounds",
+                    (ctx_start, ctx_end, f"The program ({len(code)} bytes at address {base}) does not fit in the 16-bit fields of format '{file_format}'")
+                )
+                continue
             try:
                 with open_device(filepath, "wb") as f:
                     f.write(result)
